@@ -17,7 +17,7 @@
 From Coq Require Import List Arith Bool.
 From Corgi Require Import Lib.OptionMonad Lib.Sums Model.Scalar Model.Arr Model.SlicedOp Model.Elementwise Model.Linalg
      Model.Image Model.Ops Model.Engine Proofs.ArrFacts Proofs.EngineDefs Proofs.AdjointSpec Proofs.OptimSpec
-     Proofs.HistoryInv Proofs.ValueConcrete Model.Program Proofs.TrainLoop.
+     Proofs.HistoryInv Proofs.ValueConcrete Model.Program Proofs.TrainLoop Proofs.TrainInterleave.
 Import ListNotations.
 
 (** one iteration: loss, step of every parameter by its own fresh gradient, invariant re-established *)
@@ -191,6 +191,36 @@ Theorem C14_no_leak :
             h_node s3 h3 = Some nd /\ n_children nd = [] /\ p_bop (n_pay nd) = None /\ n_grad nd = None).
 Proof. exact @update_no_leak. Qed.
 
+(** leaf construction, clones, drops, reads and Model::forward between backward and update keep every parameter's handle, values and stored gradient, and the update precondition *)
+Theorem C14_harmless_instruction :
+  forall (F : Type) (O : ScalarOps F) (s0 : state) (i : instr) (s' : state) (o : obs),
+         armed s0 -> harmless i = true -> step O s0 i = Some (s', o) -> armed s' /\ same_params s0 s'.
+Proof. exact @step_harmless. Qed.
+
+(** any program of such instructions (e.g. validation forwards) between backward and update: the update still succeeds and re-binds every parameter to exactly the arrays the immediate update would have produced *)
+Theorem C14_interleaved_update :
+  forall (F : Type) (O : ScalarOps F) (p : list instr) (s s' : state),
+         armed s ->
+         forallb harmless p = true ->
+         exec O s p = Some s' ->
+         exists (u : state) (o : obs) (u' : state) (o' : obs),
+           step O s IModelUpdate = Some (u, o) /\
+           step O s' IModelUpdate = Some (u', o') /\ ready u /\ ready u' /\ param_arrays u' = param_arrays u.
+Proof. exact @interleaved_update_same_values. Qed.
+
+(** the single validation forward *)
+Theorem C14_forward_between_backward_and_update :
+  forall (F : Type) (O : ScalarOps F) (s : state) (h : nat) (s1 : state) (o1 : obs),
+         armed s ->
+         step O s (IForward h) = Some (s1, o1) ->
+         armed s1 /\
+         model_params s1 = model_params s /\
+         (forall p : handle, In p (model_params s) -> h_arr s1 p = h_arr s p /\ grad_of s1 p = grad_of s p) /\
+         (exists (u : state) (o : obs) (u' : state) (o' : obs),
+            step O s IModelUpdate = Some (u, o) /\
+            step O s1 IModelUpdate = Some (u', o') /\ ready u /\ ready u' /\ param_arrays u' = param_arrays u).
+Proof. exact @forward_between_backward_and_update. Qed.
+
 Print Assumptions C14_iteration.
 Print Assumptions C14_loss_is_function_of_parameters_and_batch.
 Print Assumptions C14_construction_ready.
@@ -200,3 +230,6 @@ Print Assumptions C14_update_ready.
 Print Assumptions C14_slots_are_table_entries.
 Print Assumptions C14_double_backward.
 Print Assumptions C14_no_leak.
+Print Assumptions C14_harmless_instruction.
+Print Assumptions C14_interleaved_update.
+Print Assumptions C14_forward_between_backward_and_update.
